@@ -1,9 +1,12 @@
 package run
 
 import (
+	"crypto/tls"
 	"fmt"
 	"math/rand"
 	"sort"
+	"sync"
+	"time"
 
 	wire "github.com/jeroenrinzema/psql-wire"
 
@@ -34,9 +37,44 @@ func PlayMulti(beh M, rng *rand.Rand, proj *Projection) ([][]M, error) {
 			x0.Shutdown()
 		}
 	}
+	if I(beh, "_i")%6 == 5 {
+		// the server is configured for TLS; before the sessions of the schedule, two clients upgrade at the same time
+		// (both have their 'S' before either starts its handshake): the TLS configuration is shared by all
+		// connections and only read
+		cfg["tls"] = "cert"
+	}
 	x, err := NewExec(cfg)
 	if err != nil {
 		return nil, err
+	}
+	tlsOK := true
+	if S(cfg, "tls") == "cert" {
+		var ups []*mem.Conn
+		for k := 0; k < 2; k++ {
+			u := x.Dial()
+			u.Send(pgw.SSLRequest())
+			u.WaitQuiet(WaitTimeout) //nolint
+			ups = append(ups, u)
+		}
+		var wg sync.WaitGroup
+		for _, u := range ups {
+			wg.Add(1)
+			go func(u *mem.Conn) {
+				defer wg.Done()
+				u.SkipRaw(u.PendingRaw())
+				tc := tls.Client(mem.ClientEnd{C: u}, &tls.Config{InsecureSkipVerify: true})
+				hs := make(chan error, 1)
+				go func() { hs <- tc.Handshake() }()
+				select {
+				case <-hs:
+				case <-time.After(WaitTimeout):
+				}
+				u.CloseClient()
+				u.WaitClosed(WaitTimeout) //nolint
+			}(u)
+		}
+		wg.Wait()
+		tlsOK = x.TLSIntact()
 	}
 	s := NewSched(x)
 	s.OnlyPark = map[string]bool{"h.enter": true}
@@ -224,6 +262,7 @@ func PlayMulti(beh M, rng *rand.Rand, proj *Projection) ([][]M, error) {
 		}
 		tr := append([]M{{"k": "cfg", "c": Clean(cfg)}}, p.Out...)
 		tr = append(tr, M{"k": "x-maps", "own": own, "others": others, "parts": parts, "otherparts": otherParts})
+		tr = append(tr, M{"k": "x-global", "m": paramsObj(x.Global), "tlsok": tlsOK && x.TLSIntact()})
 		out = append(out, tr)
 	}
 	return out, nil
